@@ -68,6 +68,11 @@ EXPECTED_INCONCLUSIVE = {
     'C17-r9-2': 'rendered sections memoised in a module-level table keyed '
                 'by id(default): what the table hands back is not read '
                 '(reported until round 10 only by non-recognition)',
+    'C04-1': 'the pattern is case-folded once by the constructor and kept '
+             'in a derived attribute: what the constructor stores is not '
+             'read (reported until round 10 only by non-recognition)',
+    'C04-r2-2': 'a bare placeholder is recognised by the constructor and '
+                'kept in a derived attribute (same)',
     'C08-r6-2': 'the gate hands its error back instead of raising it '
                 '(C07.SURFACE / C14.SURFACE report the raise outside the '
                 'gate; C08 declines)',
